@@ -8,7 +8,7 @@ from .setops import premise_group, constructor_group, bits_for, fnr, decode_ab, 
 
 from ..validate import validation_group
 BOUNDS = {'quick': {'single interval': 'concrete order, identifier lists <= 1, components full u64 <= MAX_SAFE_INTEGER', 'ranges': '1..2 alternatives, hybrid mode (identifiers abstract)'},
-          'thorough': {'single interval': 'identifier lists <= 3 and <= 4', 'ranges': '1..4 alternatives'}}
+          'thorough': {'single interval': 'identifier lists <= 3 and <= 4', 'ranges': '1..6 alternatives'}}
 OUTSIDE = ['which comparator texts produce which bounds (parser; the generated -0 bounds are covered structurally under C01)', 'identifier lists longer than the bound in the concrete groups']
 ASSUMPTIONS = ['O-sat: within the bounds (SemVer precedence, O-order) and, for a prerelease, some bound of the alternative is a prerelease with the same major.minor.patch',
                'hybrid groups are sound given C04 ([[Version::cmp]] = O-order)']
@@ -16,12 +16,13 @@ ASSUMPTIONS = ['O-sat: within the bounds (SemVer precedence, O-order) and, for a
 
 def groups(tier):
     L = 1 if tier == 'quick' else 3
-    K = 2 if tier == 'quick' else 4
+    K = 2 if tier == 'quick' else 6
     gs = [{'name': 'interval-L%d' % L, 'fn': interval_group, 'args': {'L': L}},
           {'name': 'build-L%d' % min(L, 2), 'fn': build_group, 'args': {'L': min(L, 2)}}]
     if tier != 'quick':
         gs.append({'name': 'interval-L1', 'fn': interval_group, 'args': {'L': 1}})
         gs.append({'name': 'interval-L4', 'fn': interval_group, 'args': {'L': 4}})
+        gs.append({'name': 'interval-L5', 'fn': interval_group, 'args': {'L': 5}})
     for k in range(1, K + 1):
         gs.append({'name': 'range-%d' % k, 'fn': range_group, 'args': {'k': k}})
     gs.append({'name': 'constructor', 'fn': constructor_group, 'args': {'L': 1 if tier == 'quick' else 2}})
